@@ -106,16 +106,20 @@ func indexOfArgs(args string) int {
 // body is the common part of every arm: record start, take time, record completion, then fail or not.
 func (w *world) body(name, arm, args string) error {
 	idx := indexOfArgs(args)
+	vsched.HLock() // the recordings are shared by the tool goroutines (no-op under the scheduler, a mutex in the race pass)
 	vsched.Note(noteTag)
 	w.started = append(w.started, idx)
 	w.arms = append(w.arms, fmt.Sprintf("%s.%s(%s)", name, arm, args))
 	vsched.Note(noteTag)
+	vsched.HUnlock()
 	for i := 0; i < w.sp.yield[name]; i++ {
 		vsched.Yield()
 	}
+	vsched.HLock()
 	vsched.Note(noteTag)
 	w.finished = append(w.finished, idx)
 	vsched.Note(noteTag)
+	vsched.HUnlock()
 	switch w.sp.fail[name] {
 	case fErr:
 		return toolErr[name]
@@ -764,8 +768,9 @@ func main() {
 		"a bare ToolsNode has no enclosing run: a panic of the inline (first) tool reaching its direct caller as a panic is accepted there; inside a graph it must be a run error",
 		"when several tools fail, which failure is reported is not specified: any of them is accepted",
 		"happens-before state caching is used for Stream scenarios only (stream code is channel-synchronised; task slots are disjoint and read after WaitGroup.Wait; the harness recordings are ordered with vsched.Note); Invoke scenarios are explored without it",
+		harness.RacePassAssumption,
 	}
-	c.Res.Explanation = "stateless exhaustive exploration of real ToolsNode.Invoke/Stream calls (bare and inside a compiled graph) with recording tools; oracle per execution = the statement: N tool messages, the i-th with the i-th call id and f(name_i,args_i); the streamed chunks concatenate position-wise (concatMessageArray semantics) to the same list; a failing tool fails the call with an error that errors.Is its error; a panicking tool gives a run error, no crashed goroutine, no hang, nothing left blocked; an unknown name is an error, or with a handler the handler's answer at that index"
+	c.Res.Explanation = "stateless exhaustive exploration of real ToolsNode.Invoke/Stream calls (bare and inside a compiled graph) with recording tools; oracle per execution = the statement: N tool messages, the i-th with the i-th call id and f(name_i,args_i); the streamed chunks concatenate position-wise (concatMessageArray semantics) to the same list; a failing tool fails the call with an error that errors.Is its error; a panicking tool gives a run error, no crashed goroutine, no hang, nothing left blocked; an unknown name is an error, or with a handler the handler's answer at that index. " + harness.RacePassExplanation
 	if quick {
 		c.Res.Notes = append(c.Res.Notes,
 			"quick menu (union): (a) every call list x six kind patterns, no failure, all tools yield; (b) every kind assignment for <= 2 calls and for Invoke of 3 calls; (c) every subset of failing tools/handler (error, panic, mid-stream error) with uniform kinds inv / s2 (and both for <= 2 calls); (d) every yield assignment for Invoke with invokable tools and <= 1 failure and for Stream of <= 2 calls; (e) a configured but unneeded handler for <= 2 calls; each x Invoke/Stream x bare node/graph. The thorough tier runs the full product (except: Stream of 3 calls reaching the merge only with all tools yielding, the six kind patterns and <= 1 mid-stream error; an unneeded handler only on the plain success path)",
@@ -775,6 +780,7 @@ func main() {
 			"thorough bounds: {0,1,2,3,unbounded} for every Invoke scenario, every Stream scenario of one call and every Stream scenario that fails before the merge; Stream of 2 calls that reaches the merge and every scenario with a mid-stream error {0,1,2,3}; Stream of 3 calls that reaches the merge (all tools yield, six kind patterns): single-chunk tools {0,1,2}, two-chunk streamable-only tools or a mid-stream error {0,1}, tools implementing both interfaces {0}")
 	}
 
+	rp := c.StartRacePass("./checks/c17") // worker 0 only: native -race build of this package, free runs of the scenario bodies
 	all := append(append([]string(nil), toolNames...), unknownName)
 	var entries []entry
 	for _, calls := range callLists() {
@@ -860,6 +866,7 @@ func main() {
 		c.Add(e.sc)
 	}
 	c.ExploreAll()
+	rp.Collect()
 	c.Finish()
 }
 
